@@ -369,7 +369,7 @@ theorem html_script_with_js_fragment (o : Verif.Model.Html.Opts) (ext : Verif.Mo
     (htag : st.rawTag = "script".toList)
     (hd : hasEndTag "script".toList data = false) (hc : hasInfix commentOpen data = false) :
     ∃ st' out, Verif.Model.Html.step o ext (some (jsSub parse oj)) st (.text data false) rest = .ok (st', out) ∧
-      out = jsSub parse oj (Verif.Model.Html.rawMime st.rawTag st.rawMediatype) false data ∧
+      (out = jsSub parse oj (Verif.Model.Html.rawMime st.rawTag st.rawMediatype) false data ∨ out = data) ∧
       hasEndTag "script".toList out = false ∧ hasInfix commentOpen out = false ∧
       ∀ (m : Verif.Spec.C09HtmlTok.M) (more : List Char),
         Verif.Proofs.C09HtmlRaw.ReadsContentOf m "script".toList →
@@ -380,18 +380,21 @@ theorem html_script_with_js_fragment (o : Verif.Model.Html.Opts) (ext : Verif.Mo
   have hk : Verif.Proofs.C09HtmlRaw.SubKeeps st.rawTag (some (jsSub parse oj)) := by
     rw [htag]; exact js_script_embed_keeps parse oj
   obtain ⟨st', out, hstep, he, hco, hrun⟩ :=
-    Verif.Proofs.C09HtmlRaw.html_rawtext_end_stable_partial o ext (some (jsSub parse oj)) st data rest h1 h2
+    Verif.Proofs.C09HtmlRaw.html_rawtext_end_stable_subkeeps o ext (some (jsSub parse oj)) st data rest h1 h2
       (by rw [htag]; decide) hk (by rw [htag]; exact hd) (fun _ => hc)
   obtain ⟨st'', hstep'⟩ := Verif.Proofs.C09HtmlRaw.step_raw_out o ext (some (jsSub parse oj)) st data false rest h1 h2
   have hout : out = Verif.Proofs.C09HtmlRaw.rawOut (some (jsSub parse oj)) st data := by
     rw [hstep] at hstep'
     injection hstep' with e
     injection e with _ e2
+  -- html.go 1557146: the result of the sub-minifier is used when the lexer reads it back as the content, else the data stays
   have hraw : Verif.Proofs.C09HtmlRaw.rawOut (some (jsSub parse oj)) st data
-      = jsSub parse oj (Verif.Model.Html.rawMime st.rawTag st.rawMediatype) false data := by
-    have hs : Verif.Model.Html.hashIs st.rawTag "script" = true := by rw [htag]; decide
-    simp [Verif.Proofs.C09HtmlRaw.rawOut, hs, Verif.Model.Html.callSub]
-  refine ⟨st', out, hstep, hout.trans hraw, by rw [← htag]; exact he, hco htag, ?_⟩
+      = jsSub parse oj (Verif.Model.Html.rawMime st.rawTag st.rawMediatype) false data ∨
+      Verif.Proofs.C09HtmlRaw.rawOut (some (jsSub parse oj)) st data = data := by
+    rcases Verif.Proofs.C09HtmlRaw.rawOut_cases (some (jsSub parse oj)) st data with e | ⟨f, hf, e⟩
+    · exact Or.inr e
+    · injection hf with hf; subst hf; exact Or.inl e
+  refine ⟨st', out, hstep, (by rw [hout]; exact hraw), by rw [← htag]; exact he, hco htag, ?_⟩
   intro m more hm
   have := hrun m more (by rw [htag]; exact hm)
   rw [htag] at this
